@@ -246,6 +246,21 @@ def run_api(ctx):
             ctx.count(key=label, kind='api:' + label)
         rb = {'ilevel': 3, 'joliet': None, 'rr': '1.09', 'udf': None, 'xa': False}
         scenario(ctx, tmpdir, rb, [{'op': 'addfp', 'cid': 1, 'n': 5, 'iso': '/A.;1', 'rr': 'same'}, {'op': 'addfp', 'cid': 2, 'n': 5, 'iso': '/B.;1', 'rr': 'same'}], 'dup-rr-name')
+        # the same through every call that creates a Rock Ridge name, with the clash at the start / middle / end of the
+        # sorted sibling list and after a remove-and-re-add
+        sib = [{'op': 'adddir', 'iso': '/DIR1', 'rr': 'dir1'}] + [
+            {'op': 'addfp', 'cid': 10 + i, 'n': 3, 'iso': '/DIR1/%s.;1' % nm.upper(), 'rr': nm} for i, nm in enumerate(('alpha', 'foo', 'mid', 'zeta'))]
+        for clash in ('alpha', 'foo', 'mid', 'zeta'):
+            for ver in ('1.09', '1.12'):
+                rb2 = dict(rb, rr=ver)
+                scenario(ctx, tmpdir, rb2, sib + [{'op': 'addlink', 'ons': 'i', 'old': '/DIR1/FOO.;1', 'nns': 'i', 'new': '/DIR1/NEW1.;1', 'rr': clash}], 'dup-rr-link:%s' % clash)
+                scenario(ctx, tmpdir, rb2, sib + [{'op': 'adddir', 'iso': '/DIR1/NEWD', 'rr': clash}], 'dup-rr-dir:%s' % clash)
+                scenario(ctx, tmpdir, rb2, sib + [{'op': 'addsym', 'iso': '/DIR1/NEWS.;1', 'rr': clash, 'target': 'x'}], 'dup-rr-symlink:%s' % clash)
+                scenario(ctx, tmpdir, rb2, sib + [{'op': 'rmfile', 'ns': 'i', 'path': '/DIR1/%s.;1' % clash.upper()},
+                                                 {'op': 'addfp', 'cid': 30, 'n': 3, 'iso': '/DIR1/BACK.;1', 'rr': clash},
+                                                 {'op': 'addlink', 'ons': 'i', 'old': '/DIR1/BACK.;1', 'nns': 'i', 'new': '/DIR1/NEW2.;1', 'rr': clash}],
+                         'dup-rr-link-after-readd:%s' % clash)
+                ctx.count(key=('dup-rr', clash, ver), kind='api:dup-rr')
         # field widths: names near the limits of the on-disc fields, all configurations
         for lvl in (2, 3, 4):
             for ln in (30, 31, 190, 200, 207, 208, 212, 220, 221, 222, 223, 230, 250, 254, 255, 300):
